@@ -592,6 +592,8 @@ class Ev:
     # ------------------------------------------------------------ calls
     def call_args(self, b):
         t = self.fn.blocks[b].term
+        if t.get("k") != "call" or "args" not in t:
+            return []       # not a call site (e.g. the block in which a closure value is built)
         return [self.op(a, (b, "term")) for a in t["args"]]
 
     def call_term(self, b):
